@@ -28,7 +28,7 @@ import sse_common as sc
 import sse_engine as se
 
 PROP = "C08"
-X, DEL, DELS = -77, -88, "<deleted>"
+X, FLT, DEL, DELS = -77, -78, -88, "<deleted>"
 RATIO = "param_actual_storage_level_ratio"
 CASE_SECONDS = 25               # wall-clock guard per (configuration, database) run
 AMP_KEYWORDS = 1024             # amplification database: that many keywords with one posting each
@@ -102,6 +102,8 @@ def decode(scheme, acfg):
                 cfg[k] = v
         elif v == X:
             cfg[k] = "x"
+        elif v == FLT:
+            cfg[k] = 1.5
         elif v != DEL:
             cfg[k] = v
     return cfg
